@@ -122,6 +122,11 @@ func (r *validationResponseHandler) HandleValidationResponse(
 			SetAgeHeader(ctx.Stored.Data, r.clock, ctx.Freshness.Age)
 			CacheStatusStale.ApplyTo(ctx.Stored.Data.Header)
 			r.l.LogCacheStaleIfError(req, ctx.URLKey, ctx.ToMisc(ccResp))
+			if resp != nil && resp.Body != nil {
+				// The origin's error response is not passed on: nobody else will close its body,
+				// and an open body keeps its connection (and the connection's slot) occupied.
+				_ = resp.Body.Close()
+			}
 			return ctx.Stored.Data, nil
 		}
 	}
